@@ -62,7 +62,7 @@ MUTANTS["C10"] = [
     M("io-error-drops-flags", IOF, "self._error_output.write(string, flags=flags)", "self._error_output.write(string)", expect="C10-R2"),
     M("write-line-drops-flags", OUT, "self.write(string, flags=flags, new_line=True)", "self.write(string, new_line=True)", expect="C10-R2"),
     M("f8-regression", SEC, "        if not self._may_write(flags):\n            return\n\n        erased_content", "        erased_content", expect="C10-R2"),
-    M("section-plain-drops-flags", SEC, "return super(SectionOutput, self).write(string, flags=flags)", "return super(SectionOutput, self).write(string)", expect="C10-R2"),
+    M("section-plain-drops-flags", SEC, "                string, flags=flags, new_line=new_line, with_indent=with_indent\n", "                string, new_line=new_line, with_indent=with_indent\n", expect="C10-R2"),
     M("stream-write-in-ui", "src/clikit/ui/components/empty_line.py", '        io.write("\\n")', '        io.output.stream.write("\\n")', expect="C10-R1"),
     M("quiet-after-levels", OUT,
       "        if self._quiet:\n            return False\n\n        if flags & VERBOSE:\n            return self._verbosity >= VERBOSE\n",
